@@ -114,9 +114,23 @@ def run(ctx, prog):
             why = "comparison guarded by a flag toggled each slot" if ok else \
                 "every slot is compared with the key, value slots included: a string value equal to a key is taken for that key"
         ctx.ob(rule, "findKey compares key slots only", ok, fn.where, why)
+        # the match exit: `return it` inside the loop only under stringEquals(...) true
+        loops = [i for i in fn.walk() if fn.s(i)["k"] in ("ForStmt", "WhileStmt", "DoStmt", "CXXForRangeStmt")]
+        for li in loops[:1]:
+            body = set(fn.walk(fn.s(li).get("body"))) if fn.s(li).get("body") is not None else set()
+            for r in sorted(body):
+                if fn.s(r)["k"] != "ReturnStmt":
+                    continue
+                g = any(pol and fn.s(fn.strip(c, casts=True))["k"] in P.CALL_KINDS and
+                        fn.s(fn.strip(c, casts=True)).get("callee", {}).get("q", "").endswith("stringEquals") for c, pol in fn.guards_of(r))
+                ctx.ob(rule, "findKey reports a match only when stringEquals holds", g, fn.loc(r),
+                       "" if g else "a member is returned on a path where stringEquals(key, stored key) was not established (e.g. a "
+                       "pointer-identity shortcut): a shorter key that starts at the same address matches a longer stored key")
     ctx.floor(rule, "ObjectData::findKey instantiations", nf, 3)
     unlink(ctx, prog)
     alias(ctx, prog)
+    iter_stale(ctx, prog)
+    swap_all(ctx, prog)
     ctx.doc("R-STABLE", "no mutation path reaches a function that moves/frees slot blocks")
     ctx.doc("R-RO", "read-only entry points reach no write into document memory")
     ctx.doc("R-KEYVAL", "key lookup alternates key/value slots")
@@ -347,3 +361,78 @@ def alias(ctx, prog, rule="R-ALIAS"):
                (fn.text(hazard[0])[:50], fn.s(hazard[1])["ref"]["n"]))
     ctx.floor(rule, "copy routines with a document-view source", n, 3)
     ctx.doc(rule, alias.__doc__.strip().replace("\n", " "))
+
+
+def iter_stale(ctx, prog, rule="R-ITERNEXT"):
+    """Removal while iterating (C04: references to other values stay valid
+    across removals): CollectionIterator caches the id of the successor
+    because the current slot may have been released and recycled since it was
+    reached.  In next(), slot_ is stale until it is re-seated: it is not
+    dereferenced before an assignment to slot_ on the same path."""
+    from lib import typestate
+    fns = sorted(prog.q("CollectionIterator::next"), key=lambda f: f.key)
+    for fn in fns[:1]:
+        def is_slot(i):
+            st = fn.s(fn.strip(i, casts=True))
+            return st["k"] == "MemberExpr" and st.get("m") == "slot_" and (not st["c"] or fn.s(fn.strip(st["c"][0], casts=True))["k"] == "CXXThisExpr")
+
+        def transfer(fn_, e, s_):
+            st = fn_.s(e)
+            if st["k"] == "BinaryOperator" and st["op"] == "=" and is_slot(st["c"][0]):
+                return ("fresh",)
+            return (s_,)
+
+        def check(fn_, e, s_):
+            st = fn_.s(e)
+            if s_ == "stale" and st["k"] == "MemberExpr" and st.get("arrow") and st["c"] and is_slot(st["c"][0]):
+                return "slot_ is dereferenced before it is re-seated"
+            if s_ == "stale" and st["k"] in P.CALL_KINDS and "obj" in st and is_slot(st["obj"]) and st.get("callee", {}).get("q", "").split("::")[-1] != "operator bool":
+                return "slot_ is dereferenced before it is re-seated"
+            return None
+        reports, _x, err = typestate.analyse(fn, "stale", transfer, None, check)
+        ok = not reports and not err
+        ctx.ob(rule, "CollectionIterator::next() does not read through the slot it is leaving", None if err else ok, fn.where if ok else fn.loc(reports[0][0]),
+               "the successor comes from the cached id" if ok else
+               "next() reads the successor from the slot it is leaving (%s): after remove(it) that slot is released and may already hold "
+               "another value, so ++it walks into the wrong list" % fn.text(reports[0][0]))
+    ctx.floor(rule, "CollectionIterator::next", len(fns), 1)
+    ctx.doc(rule, iter_stale.__doc__.strip().replace("\n", " "))
+
+
+def swap_all(ctx, prog, rule="R-SWAPALL"):
+    """swap of two documents exchanges every pool entry: a loop that exchanges
+    a[i] and b[i] element by element runs over the whole table (a constant
+    bound), not over the number of entries one of the two sides uses —
+    otherwise the entries only the other side uses are not handed over."""
+    n = 0
+    for fn in sorted(prog.fns.values(), key=lambda f: f.key):
+        if fn.name != "swap" or not fn.file.startswith("Memory/MemoryPoolList") or len(fn.params) != 2:
+            continue
+        pd = [p["d"] for p in fn.params]
+        for li in fn.walk():
+            ls = fn.s(li)
+            if ls["k"] not in ("ForStmt", "WhileStmt") or ls.get("body") is None or ls.get("cond") is None:
+                continue
+            exchanges = False
+            for j in fn.walk(ls["body"]):
+                sj = fn.s(j)
+                if sj["k"] in P.CALL_KINDS and sj.get("callee", {}).get("q", "").split("::")[-1] in ("swap_", "swap") and len(sj.get("args", [])) == 2:
+                    bases = set()
+                    for a in sj["args"]:
+                        for x in fn.walk(a):
+                            sx = fn.s(x)
+                            if sx["k"] == "DeclRefExpr" and sx["ref"]["d"] in pd:
+                                bases.add(sx["ref"]["d"])
+                    if len(bases) == 2:
+                        exchanges = True
+            if not exchanges:
+                continue
+            n += 1
+            used = {fn.s(x)["ref"]["d"] for x in fn.walk(ls["cond"]) if fn.s(x)["k"] == "DeclRefExpr" and fn.s(x)["ref"]["d"] in pd}
+            ok = len(used) != 1
+            ctx.ob(rule, "swap(MemoryPoolList): the element-wise exchange covers both sides", ok, fn.loc(ls["cond"]),
+                   "bound %s" % fn.text(ls["cond"]) if ok else
+                   "the loop exchanging the inline pool entries is bounded by %s, a count of one side only: when the other document uses "
+                   "more pools its surplus entries are not handed over and its slot ids resolve into stale pools after the swap" % fn.text(ls["cond"]))
+    ctx.floor(rule, "element-wise exchange loops in swap(MemoryPoolList)", n, 1)
+    ctx.doc(rule, swap_all.__doc__.strip().replace("\n", " "))
